@@ -356,7 +356,7 @@ Lemma tfeq_all_eq : forall a b, (forall f, tfeq f a b) -> a = b.
 Proof.
   intros [] [] H.
   pose proof (H TInput); pose proof (H TPos); pose proof (H TLineStart); pose proof (H TLineStarts); pose proof (H TLine);
-  pose proof (H TKeywords); pose proof (H TDialect); pose proof (H TLogger); pose proof (H TConfigured); pose proof (H TComments).
+  pose proof (H TKeywords); pose proof (H TDialect); pose proof (H TLogger); pose proof (H TConfigured); pose proof (H TLoc); pose proof (H TComments).
   cbn in *. congruence.
 Qed.
 
